@@ -115,9 +115,16 @@ def check_float_alloc(ctx, repo, rule, funcs, consequence):
             c = st.value
             # only an array bound as allocated can truncate later stores (`np.zeros(..) + v` is promoted like any arithmetic)
             alloc = c if (isinstance(c, ast.Call) and call_name(c) in ALLOC and any(k.arg == 'dtype' for k in c.keywords)) else None
+            if alloc is None and isinstance(c, ast.Call) and call_name(c) in ('zeros_like', 'ones_like', 'empty_like') and c.args \
+                    and not any(k.arg == 'dtype' for k in c.keywords):
+                # np.empty_like(P): the dtype of P
+                alloc = c
+                dt = ast.Attribute(value=c.args[0], attr='dtype', ctx=ast.Load())
+                ast.copy_location(dt, c)
+            elif alloc is not None:
+                dt = [k.value for k in alloc.keywords if k.arg == 'dtype'][0]
             if alloc is None:
                 continue
-            dt = [k.value for k in alloc.keywords if k.arg == 'dtype'][0]
             is_float = floating_dtype(dt, fa)
             p = _param_dtype(dt, fa, params)
             if p is None and is_float:
